@@ -311,6 +311,9 @@ class Canon:
                 return ast.Constant(v)
             if isinstance(v, (tuple, list)) and 0 < len(v) <= 16 and all(isinstance(x, (int, bytes, str)) and not isinstance(x, bool) for x in v):
                 return (ast.List if isinstance(v, list) else ast.Tuple)([ast.Constant(x) for x in v], ast.Load())
+            if isinstance(v, (tuple, list)) and _plain_table(v):
+                lit = lambda x: ast.Constant(x) if not isinstance(x, (tuple, list)) else (ast.List if isinstance(x, list) else ast.Tuple)([lit(y) for y in x], ast.Load())
+                return lit(v)
         if isinstance(e, ast.Compare) and len(e.ops) > 1:
             # a <= b < c  is  a <= b and b < c  (the operands are values: impure calls keep their identity tag)
             parts = []
@@ -1649,7 +1652,16 @@ class Effect:
 _OPTXT = {ast.Add: "+", ast.Sub: "-", ast.Mult: "*", ast.BitOr: "|", ast.BitAnd: "&", ast.BitXor: "^", ast.LShift: "<<", ast.RShift: ">>", ast.Mod: "%", ast.FloorDiv: "//"}
 
 
-def make_const_of(ctx, fi):
+def _plain_table(val, depth=0):
+    """a small tuple / list of ints, bytes, strings (one level of nesting): a table a loop may run over"""
+    if isinstance(val, (int, bytes, str)) and not isinstance(val, bool):
+        return True
+    if isinstance(val, (tuple, list)) and depth < 2 and 0 < len(val) <= 16:
+        return all(_plain_table(x, depth + 1) for x in val)
+    return False
+
+
+def make_const_of(ctx, fi, tables=False):
     """resolver of module-level constants for Canon: Names/Attributes that are not parameters or locals of fi"""
     locals_ = set(fi.params()) | set(df.assignments(fi.node))
     p = fi
@@ -1685,6 +1697,8 @@ def make_const_of(ctx, fi):
                         v = val
                     elif isinstance(val, (tuple, list)) and 0 < len(val) <= 16 and all(isinstance(x, str) for x in val):       # tables of names
                         v = val
+                    elif tables and isinstance(val, (tuple, list)) and _plain_table(val):
+                        v = val         # only for rules that read one function (the reference files do not carry such tables)
                 except Exception:
                     v = None
         cache[t] = v
@@ -1923,7 +1937,7 @@ def walk(ctx, fi, leaf=None, keep=(), body=None, int_names=None, inline=False, f
     """convenience: canonical walker of a function with module constants resolved"""
     node = expanded(ctx, fi) if body is None else fi.node
     keep = set(keep) | (mutated_locals(node) - set(fi.params()))
-    canon = Canon(make_const_of(ctx, fi), int_names, make_inliner(ctx, fi) if inline else None)
+    canon = Canon(make_const_of(ctx, fi, tables=True), int_names, make_inliner(ctx, fi) if inline else None)
     canon.assign_of = make_assign_resolver(ctx, fi)
     w = SymWalker(node, canon, leaf, keep=keep, feasible=feasible)
     w.run(body)
@@ -2871,6 +2885,36 @@ def _rename_summary(sm, m):
     return Summary([Item(i.kind, ren(i.head), rf(i.cond)) for i in sm.items], sm.w)
 
 
+def _written_locations(sm):
+    """attribute / item locations a function writes that outlive the call: `self.a`, `self.a[]`, `cls.a`, `param.a[]`,
+    `GLOBAL[]` -- not locals (numbered _vN) and not the values"""
+    import re
+    out = set()
+    for it in sm.items:
+        if it.kind != "effect" or it.head.startswith("call "):
+            continue
+        head = it.head.split(" in loop")[0].split(" after ")[0]
+        m = re.match(r"^([A-Za-z_][A-Za-z_0-9]*(?:\.[A-Za-z_][A-Za-z_0-9]*)*)(\[.*?\])? = ", head)
+        if not m:
+            continue
+        path, sub = m.group(1), m.group(2)
+        root = path.split(".")[0]
+        if re.fullmatch(r"_v\d+", root) or "__" in root and re.search(r"__\d+__", root):
+            continue            # a local (or the local of a spliced helper)
+        if "." not in path and not sub:
+            continue
+        out.add(path + ("[]" if sub else ""))
+    return out
+
+
+def new_state(code, ref, func_name=""):
+    """locations written by the code that the reference never writes (a memo, a cache, a flag): state that makes a later
+    call depend on an earlier one.  Constructors are exempt (they define the object's attributes)."""
+    if func_name in ("__init__", "__new__", "__post_init__", "__setstate__"):
+        return []
+    return sorted(_written_locations(code) - _written_locations(ref))
+
+
 def compare_summaries(code, ref, near=0.7, _renamed=False):
     status, details = _compare_summaries(code, ref, near)
     if status != "same" and not _renamed:
@@ -3076,6 +3120,12 @@ def reference_status(ctx, fi, ref_source, ref_names, int_names=None, leaf=None, 
             s_code = s_code_plain
         s_ref = summarize(ref_node, canon_ref, leaf, keep, init_env=env_ref)
         status, details = compare_summaries(s_code, s_ref)
+        if status != "same":
+            ns = new_state(s_code, s_ref, getattr(fi.node, "name", ""))
+            if ns:
+                # whatever else changed: the function now keeps something between calls that the reviewed one did not
+                status = "differs"
+                details = [("state", "effect", "(the reviewed function writes nothing there)", "writes %s" % ", ".join(ns), 1.0)] + list(details)
         rank = {"same": 0, "differs": 1, "near": 2, "unrecognised": 3}[status]
         if best is None or (rank, len(details)) < best[0]:
             best = ((rank, len(details)), status, details, s_ref, ref_name)
